@@ -96,7 +96,7 @@ func (c Case) failSource() string {
 	sb.WriteString("<template")
 	first := "chainoff"
 	for _, n := range c.names() {
-		if keep[n] || strings.ToLower(n) != n {
+		if keep[n] || strings.ToLower(n) != n || nonASCII(n) {
 			continue
 		}
 		if first == "chainoff" {
